@@ -339,9 +339,9 @@ func (x *run) deployOracle(ep *epochs) {
 }
 
 // kfPartialRedeploy (family P): one worker of two dies while the pipeline is idle; the survivor is redeployed
-// in place together with a replacement. Deterministic reproducer of the known finding old-instance-gc at job
-// level: the survivor's previous dkv.DB object becomes garbage and its table cleanups delete files the new
-// database (restored from the same operator's checkpoint, same directory) needs.
+// in place together with a replacement. Deterministic reproducer of the known finding in-place-redeploy: the
+// survivor's source runner stops the whole worker on the first failed send to the dead operator, and a second
+// Deploy in place tears down nothing of the previous deployment.
 func kfPartialRedeploy(c *lib.Ctx) {
 	o := runOpts{workers: 2, keyGroups: 16, splits: 2, perSplit: 60, maxSize: 2, maxDelay: time.Millisecond, tsMode: "increasing"}
 	x := newRun(c, o)
